@@ -28,22 +28,16 @@ theorem Unch.of_obsEq {g h h' : Graph} (hU : Unch g h) (he : ObsEq h h') : Unch 
     obtain ⟨a1, ⟨b1, b2, b3⟩, a3⟩ := hx l hl'
     exact ⟨a1, ⟨(he.has _).mpr b1, (he.links _).trans b2, fun a => (he.attrs _ a).trans (b3 a)⟩, a3⟩
 
-theorem keepLink_deleteAll (h : Graph) (ids ids' : List String) :
-    keepLink (h.deleteAll ids) ids' = keepLink h ids' := by
-  funext l
-  unfold keepLink
-  rw [entityId_eq, getAttr_deleteAll, ← entityId_eq]
-
-theorem deleteAll_comm (h : Graph) (i j : String) :
-    ObsEq ((h.deleteAll [i]).deleteAll [j]) ((h.deleteAll [j]).deleteAll [i]) := by
+theorem deleteObjs_comm (h : Graph) (a b : Nat) :
+    ObsEq ((h.deleteObjs [a]).deleteObjs [b]) ((h.deleteObjs [b]).deleteObjs [a]) := by
   refine ⟨rfl, rfl, ?_, ?_, ?_⟩
   · intro k
     unfold Has
-    rw [node?_isSome_deleteAll, node?_isSome_deleteAll, node?_isSome_deleteAll, node?_isSome_deleteAll]
+    rw [node?_isSome_deleteObjs, node?_isSome_deleteObjs, node?_isSome_deleteObjs, node?_isSome_deleteObjs]
   · intro k a
-    rw [getAttr_deleteAll, getAttr_deleteAll, getAttr_deleteAll, getAttr_deleteAll]
+    rw [getAttr_deleteObjs, getAttr_deleteObjs, getAttr_deleteObjs, getAttr_deleteObjs]
   · intro k
-    rw [links_deleteAll, links_deleteAll, links_deleteAll, links_deleteAll, keepLink_deleteAll, keepLink_deleteAll,
+    rw [links_deleteObjs, links_deleteObjs, links_deleteObjs, links_deleteObjs,
       List.filter_filter, List.filter_filter]
     congr 1
     funext l
@@ -51,25 +45,10 @@ theorem deleteAll_comm (h : Graph) (i j : String) :
 
 theorem ObsEq.refl (h : Graph) : ObsEq h h := ⟨rfl, rfl, fun _ => Iff.rfl, fun _ _ => rfl, fun _ => rfl⟩
 
-theorem entityId_deleteAll (h : Graph) (ids : List String) (k : Nat) :
-    (h.deleteAll ids).entityId k = h.entityId k := by
-  rw [entityId_eq, getAttr_deleteAll, ← entityId_eq]
-
 /-- the two auto-created arrays may be deleted in either order -/
 theorem dropAuto_comm (h : Graph) (a b : Nat) :
-    ObsEq (dropAuto (dropAuto h (some a)) (some b)) (dropAuto (dropAuto h (some b)) (some a)) := by
-  unfold dropAuto
-  cases ha : h.entityId a with
-  | none =>
-    cases hb : h.entityId b with
-    | none => simp [ha, hb]; exact ObsEq.refl h
-    | some j => simp [ha, hb, entityId_deleteAll]; exact ObsEq.refl _
-  | some i =>
-    cases hb : h.entityId b with
-    | none => simp [ha, hb, entityId_deleteAll]; exact ObsEq.refl _
-    | some j =>
-      simp only [ha, hb, entityId_deleteAll]
-      exact deleteAll_comm h i j
+    ObsEq (dropAuto (dropAuto h (some a)) (some b)) (dropAuto (dropAuto h (some b)) (some a)) :=
+  deleteObjs_comm h a b
 
 theorem mtagTail_unch {g gB : Graph} (undo : Graph → Graph) (hundo : ∀ hh, Unch gB hh → Unch g (undo hh))
     (hK : KeysLt gB) {o : Nat} (hto : ∀ l, l ∈ gB.links o → Has gB l.2) (ho : Has gB o)
